@@ -78,6 +78,15 @@ ReplaceClobbered(n, k, changed, aliases) == LET r == Append(n, k) IN
     {c \in Range(changed) : ~IsPrefix(r, c[1]) /\ ~\E al \in Range(aliases) : IsPrefix(al, c[1])}
 Garbled(differs, pvals)               == {d \in Range(differs) : ~\E x \in Range(pvals) : x[1] = d[2] /\ x[2] = d[3]}
 
+(* ---- save -> load round trip: parameters set in memory and parameters loaded from a file must be the same ----------
+   (values AND types: a list-valued id filter must come back as a list).  Loading constructs the groups anew, and the
+   constructor propagates the three base parameters of the root to every nested group (the only documented promise,
+   BaseParam.__post_init__): a base parameter that differs between a nested group and the root is an EITHER band. *)
+BaseFields    == {"time_begin", "time_end", "antialiased"}
+LoadOp(val)   == [p \in DOMAIN val |-> IF p[2] \in BaseFields /\ <<<<>>, p[2]>> \in DOMAIN val THEN val[<<<<>>, p[2]>>] ELSE val[p]]
+RoundtripBand(m, f)         == f \in BaseFields /\ m # <<>>
+RoundtripChanged(changed)   == {c \in Range(changed) : ~RoundtripBand(c[1], c[2])}
+
 (* --- what the trace of a real Set is checked against (diff-encoded observation) ---
    vals    : [[path, value token], ...]  value of `field` at every real node that has it after the Set
    changed : [[path, field name], ...]   every (node, public non-group attribute) whose value differs before/after *)
@@ -158,7 +167,12 @@ PartsMissing(want, parts) == {<<l, q>> : l \in want, q \in LaneletParts} \ {<<x[
 
 (* =============================== (3) totality ===================================== *)
 Archetypes == {"plain", "point-mass", "custom-state", "no-orientation", "uncertain-position", "uncertain-orientation", "defaults", "interval-sets",
-               "goals", "goal-no-position", "signs-lights", "lights-inactive", "light-no-cycle", "empty"}
+               "goals", "goal-no-position", "signs-lights", "signs-inside", "lights-inactive", "light-no-cycle", "empty"}
+(* where the camera looks (signs and lights inside / outside the plot area), what is handed to the renderer, and how
+   the parameters reached it *)
+Views       == {"auto", "limits-include", "limits-exclude", "focus-include", "focus-exclude"}
+DrawTargets == {"scenario", "network", "objects"}
+Routes      == {"memory", "file"}
 Windows    == {"before", "at-start", "inside", "point", "default", "after"}    \* relative to the horizons 1..4 of the archetypes
 WindowOf(w) == CASE w = "before" -> <<0, 0>> [] w = "at-start" -> <<0, 3>> [] w = "inside" -> <<2, 4>> [] w = "point" -> <<2, 2>>
                  [] w = "default" -> <<0, 200>> [] w = "after" -> <<7, 9>>
